@@ -1,0 +1,7 @@
+//go:build !verif
+
+package soyhtml
+
+// verifUnbound is an observation point for verification harnesses (build tag
+// "verif"); it does nothing in normal builds.
+func verifUnbound(key string) {}
